@@ -21,10 +21,12 @@
 (* current one or closed), no deadlock.                                         *)
 (* Negative controls: IncLate (the fast path counts the user after releasing    *)
 (* the read lock) violates NoUseAfterClose; NoRecheck (the slow paths do not    *)
-(* look again under the write lock) violates NoLeak.                            *)
+(* look again under the write lock) violates NoLeak; NoCountRecheck (the        *)
+(* re-check branch hands out the shared reader without counting the user:       *)
+(* seeded change S83) violates InuseExact and then NoUseAfterClose.             *)
 EXTENDS Integers, FiniteSets, TLC
 
-CONSTANTS Consumers, NCalls, NGC, IncLate, NoRecheck
+CONSTANTS Consumers, NCalls, NGC, IncLate, NoRecheck, NoCountRecheck
 
 VARIABLES index, msgs, opened, closed, inuse, imu, mmu, pc, loc, budget
 vars == <<index, msgs, opened, closed, inuse, imu, mmu, pc, loc, budget>>
@@ -89,7 +91,7 @@ CMsLoad(p) == /\ pc[p] = "m_load"
                  THEN loc' = [loc EXCEPT ![p].h = msgs] /\ UNCHANGED <<msgs, opened>>
                  ELSE /\ msgs' = NewId /\ opened' = opened \cup {NewId}          \* message.OpenReaderMem (mmap)
                       /\ loc' = [loc EXCEPT ![p].h = NewId]
-              /\ inuse' = inuse + 1
+              /\ inuse' = IF msgs # 0 /\ ~NoRecheck /\ NoCountRecheck THEN inuse ELSE inuse + 1
               /\ mmu' = Free
               /\ Goto(p, "reading")                                 \* pause point reader.consume.messages
               /\ UNCHANGED <<index, closed, imu, budget>>
